@@ -71,17 +71,17 @@ pub open spec fn spec_tx_fee(i: int, o: int, k: int) -> int { spec_weight(i, o, 
 pub proof fn axiom_fee_base() ensures 0 < spec_fee_base() <= 1_000_000_000 { }
 #[verifier::external_body]
 pub fn tx_fee(input_len: usize, output_len: usize, kernel_len: usize) -> (r: u64)
-    requires input_len < 0x100_0000, output_len < 0x100_0000, kernel_len < 0x100_0000,
+    requires input_len < 0x1000_0000, output_len < 0x1000_0000, kernel_len < 0x1000_0000,
     ensures r == spec_tx_fee(input_len as int, output_len as int, kernel_len as int)
 { unimplemented!() }
 pub proof fn lemma_tx_fee_bounds(i: int, o: int, k: int)
-    requires 0 <= i < 0x100_0000, 0 <= o < 0x100_0000, 0 <= k < 0x100_0000
-    ensures 0 <= spec_tx_fee(i, o, k) < 0x1000_0000_0000_0000, (i + o + k > 0 ==> spec_tx_fee(i, o, k) > 0)
+    requires 0 <= i < 0x1000_0000, 0 <= o < 0x1000_0000, 0 <= k < 0x1000_0000
+    ensures 0 <= spec_tx_fee(i, o, k) < 0x8000_0000_0000_0000, (i + o + k > 0 ==> spec_tx_fee(i, o, k) > 0)
 {
     axiom_fee_base();
-    assert(spec_weight(i, o, k) <= 25 * 0x100_0000);
-    assert(spec_weight(i, o, k) * spec_fee_base() <= 25 * 0x100_0000 * 1_000_000_000) by (nonlinear_arith)
-        requires 0 <= spec_weight(i, o, k) <= 25 * 0x100_0000, 0 < spec_fee_base() <= 1_000_000_000;
+    assert(spec_weight(i, o, k) <= 25 * 0x1000_0000);
+    assert(spec_weight(i, o, k) * spec_fee_base() <= 25 * 0x1000_0000 * 1_000_000_000) by (nonlinear_arith)
+        requires 0 <= spec_weight(i, o, k) <= 25 * 0x1000_0000, 0 < spec_fee_base() <= 1_000_000_000;
     assert(i + o + k > 0 ==> spec_weight(i, o, k) * spec_fee_base() > 0) by (nonlinear_arith)
         requires 0 <= spec_weight(i, o, k), i + o + k > 0 ==> spec_weight(i, o, k) > 0, 0 < spec_fee_base();
     assert(0 <= spec_weight(i, o, k) * spec_fee_base()) by (nonlinear_arith)
@@ -326,4 +326,17 @@ pub uninterp spec fn spec_parent_path(id: Identifier) -> Identifier;
 impl Identifier {
     #[verifier::external_body]
     pub fn parent_path(&self) -> (r: Identifier) ensures r == spec_parent_path(*self) { unimplemented!() }
+}
+impl BlindingFactor {
+    #[verifier::external_body]
+    pub fn zero() -> (r: BlindingFactor) { unimplemented!() }
+}
+// SecretKey equality (constant-time compare in secp256k1zkp): equality of the 32 bytes
+impl PartialEq for SecretKey {
+    #[verifier::external_body]
+    fn eq(&self, other: &Self) -> (r: bool) { unimplemented!() }
+}
+impl vstd::std_specs::cmp::PartialEqSpecImpl for SecretKey {
+    open spec fn obeys_eq_spec() -> bool { true }
+    open spec fn eq_spec(&self, other: &Self) -> bool { self.0@ == other.0@ }
 }
